@@ -18,6 +18,7 @@ RULE = (
     "exact cross and dot products (complemented for line/plane) within 1e-7, range [0, pi/2]; parallel <=> exact "
     "angle 0, orthogonal <=> exact angle pi/2; no exception; symmetry. non-trivial = exactly parallel / "
     "anti-parallel / perpendicular pair or a line-plane combination; distinct = distinct (types, u, v, supports)."
+    ' Every Line / Plane operand is built through a drawn constructor form (two points, point+vector, position vector; point+normal, three points, point+two vectors, general form).'
 )
 ASSUMPTIONS = [
     "angle tolerance 1e-7: acos of a correctly rounded cosine is only accurate to ~2e-8 near 0",
